@@ -420,6 +420,45 @@ def dictionary_mc(quick):
                         "distinct": x["distinct"], "generated": x["generated"]})
     return states, gen, out, issues
 
+def dictionary_unbounded():
+    """The dictionary state machine over unbounded integers and symbolic capacities: Apalache proves DictionaryInd!IndInv
+    inductive (DictBound, NoPanic with retries <= 3, for every capacity triple, batch size and history length); the
+    inductive step is refuted for MutNoResetGuard (the code before fix 818b11eb); TLC checks that Dictionary.tla (two
+    columns, three levels) refines DictionaryInd.tla.  Returns dict(ok, steps=[...], problem)."""
+    res = {"ok": True, "steps": [], "problem": None}
+    d = C.scratch("apalache.")
+    shutil.copy(os.path.join(SPEC, "DictionaryInd.tla"), d)
+    for name, cinit, init, length, want in (("Init => IndInv", "ConstInit", "Init", 0, True),
+                                            ("IndInv /\\ Next => IndInv'", "ConstInit", "IndInvInit", 1, True),
+                                            ("the inductive step is refuted for MutNoResetGuard", "ConstInitMut", "IndInvInit", 1, False)):
+        t = time.time()
+        rc, out = C.sh(["timeout", "300", "apalache-mc", "check", "--cinit=" + cinit, "--init=" + init, "--inv=IndInv",
+                        "--length=%d" % length, "DictionaryInd.tla"], cwd=d, timeout=400)
+        proved = rc == 0 and "EXITCODE: OK" in out
+        refuted = "EXITCODE: ERROR (12)" in out
+        ok = proved if want else refuted
+        res["steps"].append({"tool": "apalache", "obligation": name, "ok": ok, "wall_s": round(time.time() - t, 1)})
+        if not ok:
+            res["ok"] = False
+            res["problem"] = res["problem"] or ("Apalache: %s: %s" % (name, out[-300:].replace("\n", " | ")))
+    C.drop_scratch(d)
+    cfg = ("SPECIFICATION Spec\nCONSTANTS\n Cols <- RefCols\n Caps <- RefCaps\n ThrNum = 3\n ThrDen = 10\n MaxN = 5\n MaxBatches = 2\n"
+           " MaxRetry = 5\n MutNoResetGuard = FALSE\n MutKeepWidening = FALSE\nPROPERTY Refines\nINVARIANT AbsInv\nCHECK_DEADLOCK FALSE\n")
+    r = C.run_tlc(SPEC, "MC_DictionaryRef", cfg, workers=6, timeout=900)
+    C.drop_scratch(r["dir"])
+    okr = not r["violated"] and not r["error"]
+    res["steps"].append({"tool": "tlc", "obligation": "Dictionary refines DictionaryInd (identity on the shared state)", "ok": okr,
+                         "distinct": r["distinct"], "wall_s": round(r["wall"], 1)})
+    r2 = C.run_tlc(SPEC, "MC_DictionaryRef", cfg.replace("MutNoResetGuard = FALSE", "MutNoResetGuard = TRUE").replace(" ThrNum = 3\n", " ThrNum <- RefThrInf\n"),
+                   workers=4, timeout=900)
+    C.drop_scratch(r2["dir"])
+    res["steps"].append({"tool": "tlc", "obligation": "the abstract invariant is violated by the bounded model with MutNoResetGuard", "ok": bool(r2["violated"]),
+                         "violated": r2["violated"]})
+    if not okr or not r2["violated"]:
+        res["ok"] = False
+        res["problem"] = res["problem"] or "refinement check: %s / mutant: %s" % (r["violated"] or r["error"], r2["violated"])
+    return res
+
 # ------------------------------------------------------------------ Stream.tla: the payload-level producer/consumer protocol
 
 # mutants that must violate an invariant in every run (anti-vacuity).  MutLenientCount and MutSkipUnknown only led to a panic
